@@ -53,6 +53,8 @@ pub struct HistOp {
     pub outcome: Outcome,
     /// node crashed / was stopped while the request was outstanding
     pub node_died: bool,
+    /// commit index minus applied index on the serving node when the request returned
+    pub apply_lag_at_ret: u64,
 }
 
 #[derive(Default)]
@@ -104,7 +106,17 @@ struct Target {
 
 fn pick_target(world: &WorldRef, want: u32, believed: &mut Option<u32>) -> Option<Target> {
     let w = world.borrow();
-    let up: Vec<u32> = w.up_nodes();
+    let up: Vec<u32> = w
+        .up_nodes()
+        .into_iter()
+        .filter(|id| {
+            w.nodes
+                .get(id)
+                .and_then(|n| n.as_ref())
+                .and_then(|n| n.cur.as_ref())
+                .is_some_and(|c| c.running.load(std::sync::atomic::Ordering::SeqCst))
+        })
+        .collect();
     if up.is_empty() {
         return None;
     }
@@ -185,6 +197,7 @@ pub async fn run_client(world: WorldRef, hist: HistoryRef, plan: ClientPlan, sto
             ret_ms: 0,
             outcome: Outcome::Indeterminate("unset".into()),
             node_died: false,
+            apply_lag_at_ret: 0,
         };
         // server-side deadline (C30): general timeout + one tick + scheduling slack
         let c30_wait = Duration::from_millis(t.deadline_ms + 2 * tick_ms + 250);
@@ -346,6 +359,12 @@ pub async fn run_client(world: WorldRef, hist: HistoryRef, plan: ClientPlan, sto
         rec.ret_seq = next_event_seq();
         rec.ret_ms = crate::seams::vnow_ms();
         rec.node_died = !node_alive(&world, t.node, t.inc);
+        {
+            let w = world.borrow();
+            let commit = w.oracle.lock().unwrap().views.get(&t.node).map(|v| v.commit_index).unwrap_or(0);
+            let applied = w.nodes.get(&t.node).and_then(|n| n.as_ref()).map(|n| n.sm_img.lock().unwrap().last_applied.0).unwrap_or(0);
+            rec.apply_lag_at_ret = commit.saturating_sub(applied);
+        }
         // client-side bookkeeping
         match &rec.outcome {
             Outcome::WriteOk(cas) => {
